@@ -347,6 +347,10 @@ def run_structural(ck, tier, hparse, hpeval):
     # one CASE per (statement, variant) and per listed token sequence; distinct token sequences are what is replayed
     if len(cases) < 50:
         raise vlib.ToolError("structural: TLC emitted %d cases" % len(cases))
+    ks = sorted(cases)
+    for j in (0, len(ks) // 3, (2 * len(ks)) // 3, len(ks) - 1):
+        o = cases[ks[j]]
+        ck.sample({"tokens": " ".join(ks[j]), "model": {k: v for k, v in o.items() if k != "toks"}})
     ck.add("states", r["distinct"])
     ck.add("transitions", r["states"])
     if tier == "thorough":
@@ -1384,4 +1388,11 @@ def run(tier, replay=None):
     if "mutants" in phases:
         run_mutants(ck, tier, hparse)
     ck.cov["distinct_nontrivial"] = nontrivial
+    sc, lc, co = ck.cov.get("structural_cases", {}), ck.cov.get("lexical_cases", {}), ck.cov.get("corpus", {})
+    # model-emitted cases replayed into boa_parser + printed texts re-parsed / re-lexed under the model by TLC
+    ck.cov["traces_validated_against_impl"] = (sum(sc.values()) + lc.get("sent", 0) + ck.cov.get("structural_reparsed_by_model", 0)
+                                               + ck.cov.get("lexical_relexed_by_model", 0))
+    ck.cov["rule"] = ("structural and lexical cases are the states TLC enumerates for Syntax.tla / SyntaxLex.tla (each a token sequence "
+                      "with the model's verdict and AST); corpus texts and seeded token-level mutants come on top; non-trivial = an "
+                      "accepted case whose printed form needs at least one parenthesis, escape or separator decision")
     return ck.finish()
